@@ -16,6 +16,9 @@ use crate::sim::{Fnv, Step};
 use std::collections::BTreeMap;
 use std::time::Duration;
 
+/// every case label of this part starts with it (a replay file is routed to the part that owns the case)
+pub const LABEL_PREFIX: &str = "tungstenite: ";
+
 #[derive(Clone, Copy, Debug, PartialEq, Eq, Hash)]
 enum Fault {
     EofA2B,
@@ -392,14 +395,14 @@ pub fn run(args: &Args) -> Report {
     for cap in [0usize, 64] {
         for fault in FAULTS {
             let cfg = Cfg { cap, fault };
-            cases.push(Case { try_unbounded: false, max_k: u32::MAX, label: format!("tungstenite: {fault:?} at any point of the lean scenario over real WebSocketStreams (A client role, B server role), byte pipes of capacity {}", if cap == 0 { "unbounded".to_string() } else { format!("{cap} bytes") }), exec: Box::new(move |r| exec(&cfg, r)) });
+            cases.push(Case { try_unbounded: false, max_k: u32::MAX, label: format!("{LABEL_PREFIX}{fault:?} at any point of the lean scenario over real WebSocketStreams (A client role, B server role), byte pipes of capacity {}", if cap == 0 { "unbounded".to_string() } else { format!("{cap} bytes") }), exec: Box::new(move |r| exec(&cfg, r)) });
         }
     }
     let plan = Plan {
         ks: if thorough { vec![0, 1, 2] } else { vec![0, 1] },
         env: 0,
         fault: 1,
-        total_wall: Duration::from_secs(if thorough { 900 } else { 45 }),
+        total_wall: Duration::from_secs(if thorough { 1200 } else { 45 }),
         max_execs_per_case: 20_000_000,
         required_witnesses: W_FAULT_TAKEN | W_FAULT_WITH_BLOCKED_WRITER | W_FAULT_WITH_PENDING_OPEN | W_FAULT_WITH_PENDING_BIND | W_FAULT_WITH_DGRAM_IN_FLIGHT | W_BROKEN_PIPE | W_CLOSED_SEEN | W_EOF_WHILE_OUT_STUCK | W_EOF_WHILE_OUT_STUCK << 1 | W_RESET_WHILE_OUT_STUCK | W_RESET_WHILE_OUT_STUCK << 1 | W_TASK_ERR | W_CLOSE_HANDSHAKE | W_UNJUDGED_ENDPOINT | W_PIPE_BACKPRESSURE,
         adaptive: thorough,
